@@ -118,7 +118,10 @@ where
             ((cnv_offset / res_base2k).saturating_sub(1), (cnv_offset % res_base2k) as i64)
         };
 
-        let (mut res_big, scratch_1) = scratch.take_vec_znx_big(self, 1, res.size());
+        // Same accumulator as `glwe_mul_const(res, res, b)`: the whole product, not only the limbs `res` keeps.
+        let res_dft_size = res.size() + b.len() - cnv_offset_hi;
+
+        let (mut res_big, scratch_1) = scratch.take_vec_znx_big(self, 1, res_dft_size);
         for i in 0..cols {
             self.cnv_by_const_apply(cnv_offset_hi, &mut res_big, 0, res.data(), i, b, scratch_1);
             self.vec_znx_big_normalize(
